@@ -562,3 +562,26 @@ def canonicalize(cd: ClassDesc, tree: dict) -> dict:
         else:
             out[f.name] = v
     return out
+
+
+def zero_tree(cd: ClassDesc, absent_tags: bool = True) -> dict:
+    """Deterministic minimal tree: zeros, empty strings/arrays, non-null, tags absent."""
+    tree = {}
+    for f in cd.fields:
+        if f.tag is not None and absent_tags:
+            tree[f.name] = ABSENT
+            continue
+        if f.array:
+            v = []
+        elif f.kind == "struct":
+            v = zero_tree(f.struct, absent_tags)
+        elif f.kind == "float64":
+            v = bytes(8)
+        elif f.kind == "uuid":
+            v = ZERO_UUID
+        elif f.kind in ("string", "bytes", "records"):
+            v = b""
+        else:
+            v = 0
+        tree[f.name] = Present(v) if f.tag is not None else v
+    return tree
